@@ -39,7 +39,15 @@ func splitmix(x *uint64) uint64 {
 	return z ^ (z >> 31)
 }
 
-const hangDeadline = 30 * time.Second
+// hangDeadline is three to four orders of magnitude above what a case takes
+// (milliseconds); it is not an assertion about speed: a case that misses it is
+// re-run twice and reported only if it hangs again.
+const hangDeadline = 20 * time.Second
+
+// hangConfirmed: once a hang was confirmed in this process no further case is
+// executed (each shrink attempt of a hanging case would cost three deadlines;
+// the unshrunk case is reported).
+var hangConfirmed bool
 
 type stressOut struct {
 	hung       bool
@@ -149,6 +157,9 @@ func runStress(c StressCase) *evid.Failure {
 			return nil
 		}
 	}
+	if hangConfirmed {
+		return nil
+	}
 	defer removeHooks()
 	reps := c.Reps
 	if reps < 1 {
@@ -181,6 +192,7 @@ func runStress(c StressCase) *evid.Failure {
 				evid.Label("stress:hang_not_reproduced")
 				continue
 			}
+			hangConfirmed = true
 			return evid.Failf("lost-wakeup:hang", "%d of %d goroutines never finished within %v although every critical section is finite; the hang reproduced in %d of 2 re-runs of the same case", out.unfinished, len(c.Progs), hangDeadline, again)
 		}
 		if out.fail != nil {
